@@ -228,8 +228,8 @@ def leg_D(res, r, tier):
             if isb and val is not None:
                 val = val.decode('latin-1')
             # implicit concatenation ('a''b') is several literals, not one
-            if sum(1 for t in tokenize.generate_tokens(io.StringIO(text).readline) if t.type == tokenize.STRING) != 1:
-                val = None
+            if [t.type for t in tokenize.generate_tokens(io.StringIO(text).readline) if t.type not in (tokenize.NEWLINE, tokenize.NL, tokenize.ENDMARKER)] != [tokenize.STRING]:
+                val = None      # a literal followed by a comment or anything else: the text is not exactly one literal
         except (SyntaxError, ValueError, tokenize.TokenError):
             val = None
         call = '%s %s %d%%N DNorm %s' % ('decb' if isb else 'dec', 'true' if len(quote) == 3 else 'false', ord(quote[0]), common.coq_N_list(body + quote))
